@@ -88,8 +88,9 @@ func parseCompatibleRelease(version string) ([]*constraint, error) {
 		return nil, err
 	}
 
-	// ~=2.2 is equivalent to >=2.2, <3.0
-	if len(v.release) == 1 {
+	// ~=2.2 is equivalent to >=2.2, <3.0 (PEP 440: the last release segment is dropped
+	// and the one before it incremented)
+	if len(v.release) <= 2 {
 		upperVersion := fmt.Sprintf("%d.0", v.release[0]+1)
 		return []*constraint{
 			{operator: ">=", version: version},
@@ -98,7 +99,7 @@ func parseCompatibleRelease(version string) ([]*constraint, error) {
 	}
 
 	// ~=1.4.2 is equivalent to >=1.4.2, <1.5.0
-	if len(v.release) >= 2 {
+	if len(v.release) >= 3 {
 		upperVersion := fmt.Sprintf("%d.%d.0", v.release[0], v.release[1]+1)
 		return []*constraint{
 			{operator: ">=", version: version},
